@@ -85,7 +85,7 @@ def check_property(pid, tier, seed, args, t0):
             if q and C.CONTRACTS[q].trusted:
                 trusted_callees.add(cal + (': ' + C.CONTRACTS[q].notes if C.CONTRACTS[q].notes
                                            else ''))
-    mine = [o for o in obls if pid in o['props']]
+    mine = [o for o in obls if CLI.relevant(pid, o['props'])]
     by_label = {}
     for o in mine:
         by_label.setdefault(CLI.agg_label(o), []).append(o)
@@ -220,7 +220,8 @@ def check_property(pid, tier, seed, args, t0):
         all_open = set(k['obligation'] for k in CLI.load_json(
             CLI.KNOWN, {'findings': []}).get('findings', []) if k.get('status') == 'open')
         closure_open = sorted(set(CLI.agg_label(o) for o in obls
-                                  if o['status'] != 'discharged' and pid not in o['props'])
+                                  if o['status'] != 'discharged'
+                                  and not CLI.relevant(pid, o['props']))
                               - all_open)
         t1 = time.time()
         rp_all = CLI.run_replay(pid, 'thorough', {'func': '', 'mode': 'all', 'model': None}, tier,
